@@ -121,10 +121,26 @@ def run(F, chk):
     for fn in sorted(F.fns.values(), key=lambda f: f["id"]):
         if fn.get("cls") != NIF or fn.get("tmpl") == "pattern":
             continue
-        calls = [n for n in walk(fn.get("body") or {}) if n["k"] == "Call" and n.get("fn") == "nifly::NiHeader::SetBlockOrder"]
-        if not calls:
+        if not any(n["k"] == "Call" and n.get("fn") == "nifly::NiHeader::SetBlockOrder" for n in walk(fn.get("body") or {})):
             continue
+        fn = F.inl(fn)  # the completion loop may live in a file-static helper (`AssignUnvisitedSortIndices(sortState)`)
+        calls = [n for n in walk(fn.get("body") or {}) if n["k"] == "Call" and n.get("fn") == "nifly::NiHeader::SetBlockOrder"]
         al = _aliases(fn)
+        pairing.set_fn(fn)
+        xnames2 = F.expander(fn)[1]
+
+        def _is_state_member(e_, name_, hops=0):
+            # through reference locals (`auto& newIndices = sortState.newIndices;`) and casts
+            while is_node(e_) and hops < 6:
+                hops += 1
+                if e_["k"] == "Cast":
+                    e_ = e_["e"]
+                elif e_["k"] == "Ref" and e_.get("id") in pairing._ALIAS:
+                    e_ = pairing._ALIAS[e_["id"]]
+                else:
+                    break
+            return _is_member(e_, name_, SORTSTATE)
+
         order = [id(n) for n in walk(fn["body"])]
         for c in calls:
             ok = False
@@ -137,12 +153,14 @@ def run(F, chk):
                 init0 = is_node(l.get("init")) and l["init"]["k"] == "Decl" and l["init"]["vars"] and \
                     is_node(l["init"]["vars"][0].get("init")) and l["init"]["vars"][0]["init"].get("val") == 0
                 body_stores = [x for x in walk(l["body"]) if x["k"] == "Assign" and is_node(x["l"]) and x["l"]["k"] == "Subscript"
-                               and _is_member(x["l"]["base"], "newIndices", SORTSTATE) and
-                               any(y["k"] == "Unary" and y["op"] == "++" and _is_member(y["e"], "newIndex", SORTSTATE) for y in walk(x["r"]))]
+                               and (_is_member(x["l"]["base"], "newIndices", SORTSTATE) or _is_state_member(x["l"]["base"], "newIndices")) and
+                               any(y["k"] == "Unary" and y["op"] == "++" and (_is_member(y["e"], "newIndex", SORTSTATE) or
+                                                                             _is_state_member(y["e"], "newIndex")) for y in walk(x["r"]))]
                 if init0 and body_stores:
                     # the store is only conditioned on the slot being unvisited (no other filter may skip a slot)
                     sig = pairing.guard_sig(F, fn, body_stores)
-                    extra = [k for k, p in sig[id(body_stores[0])] if "visitedIndices" not in k and "newIndices.size()" not in k
+                    extra = [k for k, p in sig[id(body_stores[0])] if "visitedIndices" not in k and "visitedIndices" not in xnames2.get(k, "")
+                             and "newIndices.size()" not in k
                              and "hasUnknown" not in k and ".empty()" not in k and ".size()" not in k and k not in ("shape", "root")]
                     loopvar = l["init"]["vars"][0]["name"]
                     extra = [k for k in extra if _mentions(k, loopvar, al)]
